@@ -21,12 +21,17 @@ def check(case):
     import probables as P
 
     fn = strategy(case["strat"])[0]
+    fn_b = fn
+    if fn is not None and case["flip"]:
+        # the same strategy through another callable object (a wrapper made per structure, a bound method):
+        # operands are compatible when their hashes agree, whatever object computes them
+        fn_b = lambda key, depth=1, _f=fn: _f(key, depth)  # noqa: E731
     kind = case["kind"]
     a_ops, b_ops, keys = case["a"], case["b"], case["keys"]
     if kind in ("bloom", "bloom-ondisk", "bloom-ondisk2"):
         try:
             mk = lambda: P.BloomFilter(est_elements=case["est"], false_positive_rate=case["fpr"], hash_function=fn)
-            a, b, both = mk(), mk(), mk()
+            a, b, both = mk(), P.BloomFilter(est_elements=case["est"], false_positive_rate=case["fpr"], hash_function=fn_b), mk()
         except P.exceptions.InitializationError:
             return None
         with core.Scratch() as tmp:
@@ -44,6 +49,10 @@ def check(case):
                     return "union of same-geometry filters returned None"
                 if bytes(u.bloom) != bytes(both.bloom):
                     return "bit array of the union differs from the filter fed both streams"
+                sa = bytes(a.bloom[: a.bloom_length])
+                uu = a.union(a)  # the stream of a, twice: the same bits
+                if uu is None or bytes(uu.bloom) != sa or bytes(a.bloom[: a.bloom_length]) != sa:
+                    return "union of a filter with itself differs from the filter / modified it"
                 if u.elements_added >= 0 and (bytes(u) != bytes(both)[:-12] + bytes(u)[-12:] or len(bytes(u)) != len(bytes(both))):
                     return "export of the union differs in its cells from the export of the filter fed both streams"
                 c, both2 = mk(), mk()
@@ -110,7 +119,7 @@ def check(case):
     else:
         cls = P.CountMinSketch
         mk = lambda: cls(width=case["w"], depth=case["d"], hash_function=fn)
-        a, b, both = mk(), mk(), mk()
+        a, b, both = mk(), cls(width=case["w"], depth=case["d"], hash_function=fn_b), mk()
         true = {}
         for k, n in a_ops:
             a.add(k, n), both.add(k, n)
@@ -121,6 +130,14 @@ def check(case):
         a.join(b)
         if list(a._bins) != list(both._bins):
             return "bins after join differ from the sketch fed both streams"
+        if case["flip"]:
+            # a sketch joined into itself is the sketch fed its stream twice (below the limits)
+            twice = mk()
+            for k, n in b_ops + b_ops:
+                twice.add(k, n)
+            b.join(b)
+            if list(b._bins) != list(twice._bins) or b.elements_added != twice.elements_added:
+                return "a sketch joined into itself differs from the sketch fed its stream twice"
         if a.elements_added != both.elements_added:
             return f"total after join {a.elements_added} != {both.elements_added}"
         for k, v in true.items():
